@@ -95,7 +95,7 @@ def rand_delta3(rng):
     return [rng.uniform(-2, 2) for _ in range(3)] + [x / an * n for x in ax]
 
 
-SE2_OPS = ["construct", "compose", "compose", "ominus", "ominus", "inverse", "boxplus", "boxplus", "iadd", "copy", "matrix", "via_disk", "optimize_chain"]
+SE2_OPS = ["construct", "compose", "compose", "ominus", "ominus", "inverse", "boxplus", "boxplus", "iadd", "copy", "matrix", "matrix_product", "matrix_product", "via_disk", "optimize_chain"]
 SE3_OPS = ["construct", "compose", "compose", "compose", "ominus", "ominus", "inverse", "inverse", "boxplus", "boxplus", "iadd", "copy", "normalize", "via_disk",
            "optimize_chain", "construct_nonunit", "normalize_inplace", "normalize_inplace"]
 
@@ -139,7 +139,7 @@ class C11(OptEngineBase):
     PROBES = [
         "angle_eq_pi_returned", "angle_near_minus_pi", "big_angle", "boxplus_norm_gt1_branch", "boxplus_norm_eq1", "w_negative", "w_zero",
         "wild_step_applied", "chain_ge_1e4", "via_disk", "optimize_se2", "optimize_se3", "optimize_nonfinite_skipped", "normalize_checked",
-        "chain_ge_1000", "auto_renormalized", "nonunit_constructed", "normalize_inplace", "unclaimed_nonunit_operand",
+        "chain_ge_1000", "auto_renormalized", "nonunit_constructed", "normalize_inplace", "unclaimed_nonunit_operand", "matrix_product", "matrix_inverse_product",
     ]
 
     def sample_view(self, case):
@@ -356,6 +356,37 @@ class C11(OptEngineBase):
                         tol = 16 * EPS * (abs(ta) + 2 * math.pi)
                         ok = check2(i, r, Fraction(ta), tol, Ea, Ba + tol, "from_matrix(to_matrix())")
                         E, B = Ea, Ba + tol
+                    elif kind == "matrix_product":
+                        # the homogeneous matrices are multiplied by the user (round-off of inconsistent sign in the
+                        # entries) and converted back: exact angle = sum (or difference, through the inverse pose)
+                        variant = (op["a"] + 2 * op["b"] + op["dst"]) % 4
+                        if variant >= 2:
+                            # relative transform through an explicit matrix inverse (LAPACK): the rotation block of the
+                            # result carries round-off of inconsistent sign; variant 3 makes the headings exactly opposite
+                            qa = PoseSE2([1.0, 2.0], ta)
+                            qb = PoseSE2([0.5, -1.0], tb if variant == 2 else ta - math.pi)
+                            tq = float(qb[2])
+                            M = np.dot(qa.to_matrix(), np.linalg.inv(qb.to_matrix()))
+                            ex, Ex, Bx = Fraction(ta) - Fraction(tq), None, None
+                            res.probe("matrix_inverse_product")
+                        elif op["b"] % 2 == 0:
+                            M = pa.to_matrix() @ pb.to_matrix()
+                            ex, Ex, Bx = Fraction(ta) + Fraction(tb), Ea + Eb, Ba + Bb
+                        else:
+                            pinv = pb.inverse
+                            M = pa.to_matrix() @ pinv.to_matrix()
+                            ti = float(pinv[2])
+                            ex, Ex, Bx = Fraction(ta) + Fraction(ti), Ea - Eb, Ba + Bb + 8 * EPS * (abs(tb) + 2 * math.pi)
+                        r = PoseSE2.from_matrix(M)
+                        res.probe("matrix_product")
+                        tol = 64 * EPS * (abs(ta) + abs(tb) + 2 * math.pi)
+                        if Ex is None:
+                            ok = check2(i, r, ex, 4 * tol, None, None, "from_matrix(A.to_matrix() @ inv(B.to_matrix()))")
+                            th = float(r[2])
+                            E, B = Fraction(th), 8 * EPS * (abs(th) + 2 * math.pi)
+                        else:
+                            ok = check2(i, r, ex, tol, Ex, Bx + tol, "from_matrix(A.to_matrix() @ B.to_matrix())")
+                            E, B = Ex, Bx + tol
                     elif kind == "via_disk":
                         r = self._via_disk(w, pa, "SE2", op.get("as", "vertex"), res)
                         if r is None:
